@@ -94,3 +94,11 @@ Example C16_ex_schedule_unfixed :
                     [new_thread "A" SharedAllowed; new_thread "B" SharedAllowed] in
   store_get SharedAllowed s = "B" /\ map th_out ts = [Some "B"; Some "B"].
 Proof. vm_compute. split; reflexivity. Qed.
+
+(** ---- side conditions on the constants regenerated from the source (Gen/Constants.v) ---- *)
+From PSA Require Import Proofs.Constants_table.
+From PSA Require Gen.Constants.
+From PSA Require Import Model.Webhook.
+Theorem C16_max_request_size_is_source : Gen.Constants.gen_max_request_size = max_request_size.
+Proof. exact max_request_size_is_source. Qed.
+Print Assumptions C16_max_request_size_is_source.
